@@ -234,7 +234,8 @@ class _Generator(Generator):
                 unique_extension_present = \
                     self.add_unique_decode_variable('bool {};', 'extension_is_present')
                 decode_lines.append(
-                    'extension_is_present = decoder_read_bool(decoder_p);')
+                    '{} = decoder_read_bool(decoder_p);'.format(
+                        unique_extension_present))
             else:
                 decode_lines.append('decoder_read_bool(decoder_p);')
 
@@ -294,6 +295,12 @@ class _Generator(Generator):
             decode_lines.append('    decoder_abort(decoder_p, EINVAL);')
             decode_lines.append('    return;')
             decode_lines.append('}')
+
+            for addition in type_.additions:
+                decode_lines.append(
+                    'dst_p->{}is_{}_addition_present = false;'.format(
+                        self.location_inner('', '.'),
+                        canonical(addition.name)))
 
         return encode_lines, decode_lines
 
